@@ -4,6 +4,8 @@ package main
 // driver registries, Redis URL parsing, and "the store is built from the validated config".
 
 import (
+	"bufio"
+	"crypto/tls"
 	"errors"
 	"fmt"
 	"github.com/chihaya/chihaya/pkg/stop"
@@ -12,6 +14,7 @@ import (
 	"math"
 	"math/big"
 	"net"
+	"net/http"
 	"net/url"
 	"os"
 	"strconv"
@@ -583,7 +586,76 @@ func cfgFrontend(c *Ctx, proto, addr, https, tlsKind string, routes bool) {
 	c.Emit(op, obs)
 }
 
+// cfg.idle: the validated idle timeout governs keep-alive connections of BOTH servers of the HTTP frontend. Read
+// timeout 300 ms, idle timeout 5 s, keep-alive on: a second request on the same connection after 1.2 s of silence is
+// served (net/http falls back to the read timeout when a server has no idle timeout: the connection would be gone).
+func cfgIdle(c *Ctx, proto string) {
+	op := "cfg.idle proto=" + proto
+	c.Begin(op)
+	obs := func() (o string) {
+		defer func() {
+			if p := recover(); p != nil {
+				o = "PANIC " + strings.Fields(fmt.Sprint(p))[0]
+			}
+		}()
+		ps, lg := newStoreLogic()
+		defer func() { <-ps.Stop() }()
+		addr := fmt.Sprintf("127.0.0.1:%d", freePort())
+		cfg := httpfe.Config{ReadTimeout: 300 * time.Millisecond, WriteTimeout: time.Second, IdleTimeout: 5 * time.Second, EnableKeepAlive: true,
+			AnnounceRoutes: []string{"/announce"}, ScrapeRoutes: []string{"/scrape"}}
+		if proto == "https" {
+			cp, kp, dir := selfSigned()
+			defer os.RemoveAll(dir)
+			cfg.HTTPSAddr, cfg.TLSCertPath, cfg.TLSKeyPath = addr, cp, kp
+		} else {
+			cfg.Addr = addr
+		}
+		fe, err := httpfe.NewFrontend(lg, cfg)
+		if err != nil {
+			return "refused"
+		}
+		defer func() { waitStop(fe.Stop(), 3*time.Second) }()
+		var conn net.Conn
+		for i := 0; i < 100; i++ {
+			if proto == "https" {
+				conn, err = tls.Dial("tcp", addr, &tls.Config{InsecureSkipVerify: true})
+			} else {
+				conn, err = net.Dial("tcp", addr)
+			}
+			if err == nil {
+				break
+			}
+			time.Sleep(20 * time.Millisecond)
+		}
+		if err != nil {
+			return "no-connection"
+		}
+		defer conn.Close()
+		br := bufio.NewReader(conn)
+		ask := func() bool {
+			_ = conn.SetDeadline(time.Now().Add(2 * time.Second))
+			if _, err := conn.Write([]byte("GET /scrape?info_hash=aaaaaaaaaaaaaaaaaaaa HTTP/1.1\r\nHost: x\r\n\r\n")); err != nil {
+				return false
+			}
+			resp, err := http.ReadResponse(br, nil)
+			if err != nil {
+				return false
+			}
+			_, _ = io.Copy(io.Discard, resp.Body)
+			resp.Body.Close()
+			return resp.StatusCode == 200
+		}
+		first := ask()
+		time.Sleep(1200 * time.Millisecond)
+		second := ask()
+		return fmt.Sprintf("first=%s second_on_same_connection=%s", b01(first), b01(second))
+	}()
+	c.Emit(op, obs)
+}
+
 func cfgFrontendAll(c *Ctx) {
+	cfgIdle(c, "http")
+	cfgIdle(c, "https")
 	for _, a := range []string{"-", "free", "busy"} {
 		cfgFrontend(c, "udp", a, "-", "none", true)
 		for _, h := range []string{"-", "free", "busy"} {
